@@ -28,5 +28,6 @@ G_ClearWithBacklog  == ~(\E c \in Clients : pc[c] = "clr_drain" /\ Len(buf) >= 2
 G_ClearWhileBusy    == ~(\E c \in Clients : pc[c] = "clr_stop" /\ apc \in {"new_set", "victims", "del_store"})
 G_ExpiredUnswept    == ~(\E h \in Hashes : store[h] # NULL /\ store[h].exp # 0 /\ store[h].exp < now /\
                           \E c \in Clients : pc[c] \in {"clr_stop", "set_send"})
+G_ClearWithPending  == ~(\E c \in Clients : pc[c] = "clr_stop" /\ buf # <<>> /\ \E i \in DOMAIN buf : buf[i].t = "new")
 G_RaiseCost         == ~(raised /\ used > maxCost)
 =============================================================================
